@@ -131,3 +131,398 @@ def gauss_kernel(ex, uni, bins):
     spans = ex.all([sp.min_wavelength <= cl, cu <= sp.max_wavelength])
     ex.prove(ex.implies(spans, ex.le(1 - 4e-12, kept)), 'window-spans-line=>full-radiance')
     ex.sample({'bins': bins, 'obligations': ['bin-average-of-profile', 'kept-fraction-within-[0,1]', 'window-spans-line=>full-radiance']})
+
+
+# ================================================================================================ composite line shapes
+from symx.universe import Universe
+import numpy as np
+from symx import rs_model
+from props import plasma_world as W
+
+LS = 'cherab.core.model.lineshape.'
+EL = W.El('X', 6, 12.011)
+
+
+def _ls_universe():
+    return Universe()
+
+
+class _Env:
+    """common symbolic inputs of a line-shape evaluation + recording of the kernel calls"""
+    def __init__(self, ex, uni, modname, field='any'):
+        self.ex, self.uni = ex, uni
+        self.mod = uni.load(LS + modname)
+        self.gauss, self.lorentz = [], []
+        self.mod.add_gaussian_line = lambda rad, wl, sig, spec: (self.gauss.append((rad, wl, sig)), spec)[1]
+        if hasattr(self.mod, 'add_lorentzian_line') or modname == 'stark':
+            self.mod.add_lorentzian_line = lambda rad, wl, w, spec, integ: (self.lorentz.append((rad, wl, w)), spec)[1]
+        self.species = W.Species(ex, EL, 1)
+        if field == 'zero':
+            bvec = rs_model.Vector3D(0.0, 0.0, 0.0)
+        else:
+            bvec = rs_model.Vector3D(ex.real('Bx'), ex.real('By'), ex.real('Bz'))
+        self.bvec = bvec
+        self.plasma = W.PlasmaStub(ex, [self.species], b_field=type('B', (), {'evaluate': lambda s, x, y, z: bvec})())
+        self.line = W.Line(EL, 1, (3, 2))
+        self.wl = ex.real('rest_wavelength', pos=True)
+        self.rad = ex.real('radiance', nonneg=True)
+        self.pt = rs_model.Point3D(ex.real('px'), ex.real('py'), ex.real('pz'))
+        self.dir = rs_model.Vector3D(ex.real('dx'), ex.real('dy'), ex.real('dz'))
+        self.ex.assume(self.dir.x * self.dir.x + self.dir.y * self.dir.y + self.dir.z * self.dir.z > 0, 'non-zero observation direction')
+        self.sp = uni.rs.Spectrum(400.0, 500.0, 2)
+        self.dop = uni.load(LS + 'doppler')
+
+    def ts(self):
+        return self.species.distribution.effective_temperature(self.pt.x, self.pt.y, self.pt.z)
+
+    def vel(self):
+        return self.species.distribution.bulk_velocity(self.pt.x, self.pt.y, self.pt.z)
+
+    def shift(self, wl):
+        return self.dop.doppler_shift(wl, self.dir, self.vel())
+
+    def sigma(self):
+        return self.dop.thermal_broadening(self.wl, self.ts(), EL.atomic_weight)
+
+    def cos_sqr(self):
+        b = self.bvec
+        q = b.dot(self.dir.normalise()) / b.get_length()
+        return q * q
+
+    def run(self, obj):
+        del self.gauss[:]
+        del self.lorentz[:]
+        obj.add_line(self.rad, self.pt, self.dir, self.sp)
+        return list(self.gauss), list(self.lorentz)
+
+
+def _sum(xs):
+    t = 0
+    for v in xs:
+        t = t + v
+    return t
+
+
+def _same_components(ex, a, b):
+    if len(a) != len(b):
+        return False
+    return ex.all([ex.all([ex.eq(x[0], y[0]), ex.eq(x[1], y[1]), ex.eq(x[2], y[2])]) for x, y in zip(a, b)])
+
+
+@harness('C02', name='doppler_thermal', universe=_ls_universe, tiers={'quick': [{}], 'thorough': [{}]},
+         functions=[LS + 'doppler.doppler_shift', LS + 'doppler.thermal_broadening'], cover=['evaluated'],
+         bounds={'values': 'wavelength, temperature, mass, velocity, direction symbolic'}, stubs=['sqrt: root variable'], outside=['floating-point rounding'])
+def doppler_thermal(ex, uni):
+    dop = uni.load(LS + 'doppler')
+    cst = uni.load('cherab.core.utility.constants')     # the library's own CODATA-2018 values (their values are not part of C02)
+    c, e, amu = cst.SPEED_OF_LIGHT, cst.ELEMENTARY_CHARGE, cst.ATOMIC_MASS
+    wl, t, m = ex.real('wavelength', pos=True), ex.real('temperature', pos=True), ex.real('mass', pos=True)
+    d = rs_model.Vector3D(ex.real('dx'), ex.real('dy'), ex.real('dz'))
+    v = rs_model.Vector3D(ex.real('vx'), ex.real('vy'), ex.real('vz'))
+    ex.assume(d.x * d.x + d.y * d.y + d.z * d.z > 0)
+    ex.cover('evaluated')
+    dl = d.get_length()
+    ex.prove(ex.eq(dop.doppler_shift(wl, d, v) * (c * dl), wl * (c * dl + (v.x * d.x + v.y * d.y + v.z * d.z))), 'doppler_shift==wavelength*(1+v.d/(c|d|))')
+    s = dop.thermal_broadening(wl, t, m)
+    ex.prove(ex.all([ex.le(0, s), ex.eq(s * s * (m * amu) * c * c, t * e * wl * wl)]), 'thermal_broadening==sqrt(T e/(m amu))*wavelength/c')
+    ex.sample({'kernel': 'doppler+thermal'})
+
+
+TRIPLETS = ['GaussianLine', 'MultipletLineShape', 'ZeemanTriplet', 'ParametrisedZeemanTriplet', 'ZeemanMultiplet', 'StarkBroadenedLine']
+
+
+@harness('C02', name='components', universe=_ls_universe,
+         tiers={'quick': [{'cls': c, 'field': f} for c in TRIPLETS for f in ('any', 'zero')],
+                'thorough': [{'cls': c, 'field': f} for c in TRIPLETS for f in ('any', 'zero')]},
+         functions=[LS + 'gaussian.GaussianLine', LS + 'multiplet.MultipletLineShape', LS + 'zeeman.ZeemanTriplet', LS + 'zeeman.ParametrisedZeemanTriplet',
+                    LS + 'zeeman.ZeemanMultiplet', LS + 'stark.StarkBroadenedLine'],
+         cover=['components-recorded'],
+         bounds={'values': 'radiance >= 0, species temperature / velocity, electron density / temperature, B vector (any or exactly zero), observation direction, '
+                           'rest wavelength, multiplet tables (2 lines), Zeeman structure tables (2 pi, 2+2 sigma), Stark coefficients, triplet parameters symbolic',
+                 'polarisation': 'every model is run for "no", "pi" and "sigma" on the same symbolic inputs'},
+         stubs=['add_gaussian_line / add_lorentzian_line: recording stubs (their own normalisation: gauss_kernel / lorentz_kernel)',
+                'doppler_shift / thermal_broadening: the translated functions (checked by doppler_thermal)', 'pow, exp, log: uninterpreted; sqrt: root variable'],
+         outside=['the Olivero FWHM polynomial and the Lorentzian weight polynomial values (only weight_gauss + weight_lorentz = 1 is used)'])
+def components(ex, uni, cls, field):
+    modname = {'GaussianLine': 'gaussian', 'MultipletLineShape': 'multiplet', 'StarkBroadenedLine': 'stark'}.get(cls, 'zeeman')
+    env = _Env(ex, uni, modname, field)
+    K = getattr(env.mod, cls)
+    args = (env.line, env.wl, env.species, env.plasma, W.AtomicData(ex))
+    extra = {}
+    if cls == 'MultipletLineShape':
+        w1, w2, r1 = ex.real('mwl_1', pos=True), ex.real('mwl_2', pos=True), ex.real('ratio_1', lo=0, hi=1)
+        table = [[w1, w2], [r1, 1 - r1]]
+        objs = {'no': K(*args, table)}
+    elif cls == 'GaussianLine':
+        objs = {'no': K(*args)}
+    elif cls == 'ParametrisedZeemanTriplet':
+        al, be, ga = ex.real('alpha', pos=True), ex.real('beta', nonneg=True), ex.real('gamma')
+        objs = {p: K(*args, (al, be, ga), p) for p in ('no', 'pi', 'sigma')}
+    elif cls == 'ZeemanMultiplet':
+        tabs = {}
+        for pol, tag in ((0, 'pi'), (1, 'sp'), (-1, 'sm')):
+            a = np.empty((2, 2), dtype=object if ex.sym else float)
+            r = ex.real('%s_ratio' % tag, lo=0, hi=1)
+            a[0, 0], a[0, 1] = ex.real('%s_wl0' % tag, pos=True), ex.real('%s_wl1' % tag, pos=True)
+            a[1, 0], a[1, 1] = r, 1 - r
+            tabs[pol] = a
+        zs = type('ZS', (), {'evaluate': lambda s, b, pol: tabs[pol]})()
+        objs = {p: K(*args, zs, p) for p in ('no', 'pi', 'sigma')}
+    elif cls == 'StarkBroadenedLine':
+        co = (ex.real('c_ij', pos=True), ex.real('a_ij', pos=True), ex.real('b_ij', pos=True))
+        objs = {p: K(*args, co, 'integrator', p) for p in ('no', 'pi', 'sigma')}
+    else:
+        objs = {p: K(*args, p) for p in ('no', 'pi', 'sigma')}
+    ts = env.ts()
+    res = {p: env.run(o) for p, o in objs.items()}
+    ex.cover('components-recorded')
+    g_no, l_no = res['no']
+    rad = env.rad
+    if cls == 'StarkBroadenedLine':
+        ne = env.plasma.electron_distribution.density(env.pt.x, env.pt.y, env.pt.z)
+        te = env.plasma.electron_distribution.effective_temperature(env.pt.x, env.pt.y, env.pt.z)
+        nowidth = ex.all([ts <= 0, ex.any([ne <= 0, te <= 0])])
+        if not g_no and not l_no:
+            ex.prove(nowidth, 'Stark:nothing-added-only-for-a-line-without-width')
+            return
+        ex.prove(ex.not_(nowidth), 'Stark:line-without-width-adds-nothing')
+        ex.prove(len(g_no) == len(l_no), 'Stark:every-component-has-a-gaussian-and-a-lorentzian-part')
+        comp_no = [(g[0] + l[0], g[1], None) for g, l in zip(g_no, l_no)]
+        # every component shares its radiance between the two parts: weight_gauss + weight_lorentz = 1
+        for g, l in zip(g_no, l_no):
+            ex.prove(ex.eq(g[1], l[1]), 'Stark:both-parts-at-the-same-wavelength')
+    else:
+        if not g_no:
+            ex.prove(ts <= 0, 'nothing-added-only-for-non-positive-species-temperature')
+            return
+        ex.prove(ts > 0, 'non-positive-species-temperature-adds-nothing')
+        comp_no = g_no
+        for c in g_no:
+            ex.prove(ex.eq(c[2], env.sigma()) if cls != 'ParametrisedZeemanTriplet' else True, 'component-width==thermal-broadening')
+    total = _sum([c[0] for c in comp_no])
+    # the unpolarised components share the whole radiance
+    if field == 'zero' or cls in ('GaussianLine', 'MultipletLineShape'):
+        ex.prove(ex.eq(total, rad), cls + ':components-sum-to-the-radiance')
+    else:
+        c2 = env.cos_sqr()
+        s2 = 1.0 - c2
+        ex.prove(ex.eq(total, rad), cls + ':components-sum-to-the-radiance', abstract=[c2] + ([co[0]] if False else []))
+        w_pi, w_sg = 0.5 * s2 * rad, (0.25 * s2 + 0.5 * c2) * rad
+        if cls in ('ZeemanTriplet', 'ParametrisedZeemanTriplet', 'StarkBroadenedLine'):
+            ex.prove(len(comp_no) == 3, cls + ':pi+two-sigma-components')
+            if len(comp_no) == 3:
+                ex.prove(ex.all([ex.eq(comp_no[0][0], w_pi), ex.eq(comp_no[1][0], w_sg), ex.eq(comp_no[2][0], w_sg)]),
+                         cls + ':weights-(1/2)sin^2,(1/4)sin^2+(1/2)cos^2-each')
+                ex.prove(ex.eq(comp_no[0][1], env.shift(env.wl)), cls + ':pi-component-at-the-doppler-shifted-rest-wavelength')
+                if cls == 'ZeemanTriplet':
+                    cst = uni.load('cherab.core.utility.constants')
+                    bm = env.bvec.get_length()
+                    e0 = cst.HC_EV_NM / env.wl
+                    ex.prove(ex.all([ex.eq(comp_no[1][1], env.shift(cst.HC_EV_NM / (e0 - cst.BOHR_MAGNETON * bm))),
+                                     ex.eq(comp_no[2][1], env.shift(cst.HC_EV_NM / (e0 + cst.BOHR_MAGNETON * bm)))]),
+                             cls + ':sigma-components-at-photon-energy-+-mu_B*B')
+                if cls == 'ParametrisedZeemanTriplet':
+                    bm = env.bvec.get_length()
+                    ex.prove(ex.all([ex.eq(comp_no[1][1], env.shift(env.wl + 0.5 * al * bm)), ex.eq(comp_no[2][1], env.shift(env.wl - 0.5 * al * bm))]),
+                             cls + ':sigma-components-at+-alpha*B/2')
+        else:   # ZeemanMultiplet: 2 pi + 2 sigma+ + 2 sigma-
+            ex.prove(len(comp_no) == 6, cls + ':all-structure-components-emitted')
+            if len(comp_no) == 6:
+                want = [w_pi * tabs[0][1, 0], w_pi * tabs[0][1, 1], w_sg * tabs[1][1, 0], w_sg * tabs[1][1, 1], w_sg * tabs[-1][1, 0], w_sg * tabs[-1][1, 1]]
+                ex.prove(ex.all([ex.eq(c[0], w) for c, w in zip(comp_no, want)]), cls + ':components-share-the-radiance-in-the-structure-ratios')
+    if cls == 'MultipletLineShape':
+        ex.prove(len(g_no) == 2 and bool(ex.all([ex.eq(g_no[0][0], rad * r1), ex.eq(g_no[1][0], rad * (1 - r1)), ex.eq(g_no[0][1], env.shift(w1)),
+                                               ex.eq(g_no[1][1], env.shift(w2))])) if not ex.sym else
+                 ex.all([len(g_no) == 2] + ([ex.eq(g_no[0][0], rad * r1), ex.eq(g_no[1][0], rad * (1 - r1)), ex.eq(g_no[0][1], env.shift(w1)),
+                                             ex.eq(g_no[1][1], env.shift(w2))] if len(g_no) == 2 else [])),
+                 cls + ':multiplet-lines-in-the-stated-ratios-at-their-shifted-wavelengths')
+    if cls == 'GaussianLine':
+        ex.prove(len(g_no) == 1 and True, cls + ':single-component')
+        ex.prove(ex.all([ex.eq(g_no[0][0], rad), ex.eq(g_no[0][1], env.shift(env.wl))]), cls + ':whole-radiance-at-the-doppler-shifted-wavelength')
+    # pi- and sigma-polarised spectra add up to the unpolarised one, component by component
+    if 'pi' in res:
+        g_pi, l_pi = res['pi']
+        g_sg, l_sg = res['sigma']
+        if field == 'zero':
+            both_g = [(a[0] + b[0], a[1], a[2]) for a, b in zip(g_pi, g_sg)] if len(g_pi) == len(g_sg) else None
+            ex.prove(both_g is not None and _same_components(ex, both_g, g_no), cls + ':pi+sigma==unpolarised(no-field:half-each)')
+        else:
+            ex.prove(_same_components(ex, g_pi + g_sg, g_no), cls + ':pi-components+sigma-components==unpolarised-components')
+            if cls == 'StarkBroadenedLine':
+                ex.prove(_same_components(ex, l_pi + l_sg, l_no), cls + ':pi+sigma==unpolarised(lorentzian-parts)')
+    ex.sample({'class': cls, 'field': field, 'components': len(comp_no)})
+
+
+@harness('C02', name='zeeman_structure', universe=_ls_universe, tiers={'quick': [{'n': 2}, {'n': 3}], 'thorough': [{'n': 2}, {'n': 3}, {'n': 5}]},
+         functions=['cherab.core.atomic.zeeman.ZeemanStructure.evaluate'], cover=['evaluated'],
+         bounds={'components': 'n per polarisation, concrete per job; wavelengths and ratios symbolic functions of B'}, stubs=[], outside=[])
+def zeeman_structure(ex, uni, n):
+    mod = uni.load('cherab.core.atomic.zeeman')
+    b = ex.real('B', nonneg=True)
+
+    def comps(tag):
+        return [(rs_model.PythonFunction1D(lambda x, k=k: ex.uf('%s_wl%d' % (tag, k), x)), rs_model.PythonFunction1D(lambda x, k=k: ex.uf('%s_r%d' % (tag, k), x, nonneg=True)))
+                for k in range(n)]
+    zs = mod.ZeemanStructure(comps('pi'), comps('sp'), comps('sm'))
+    ex.cover('evaluated')
+    for pol, tag in ((0, 'pi'), (1, 'sp'), (-1, 'sm')):
+        out = zs.evaluate(b, pol)
+        ratios = [ex.uf('%s_r%d' % (tag, k), b, nonneg=True) for k in range(n)]
+        tot = _sum(ratios)
+        ex.prove(tuple(out.shape) == (2, n), 'structure-shape')
+        for k in range(n):
+            ex.prove(ex.eq(out[0, k], ex.uf('%s_wl%d' % (tag, k), b)), 'component-wavelengths-evaluated-at-B')
+            ex.prove(ex.implies(tot > 0, ex.eq(out[1, k] * tot, ratios[k])), 'ratios-renormalised-to-sum-1')
+        ex.prove(ex.implies(tot > 0, ex.eq(_sum([out[1, k] for k in range(n)]), 1)), 'ratios-sum-to-one')
+    try:
+        zs.evaluate(-1.0, 0)
+        ok = False
+    except ValueError:
+        ok = True
+    ex.prove(ok, 'negative-field-rejected')
+    ex.sample({'components': n})
+
+
+@harness('C02', name='mse_multiplet', universe=_ls_universe, tiers={'quick': [{}], 'thorough': [{}]},
+         functions=[LS + 'beam.mse.BeamEmissionMultiplet.add_line'], cover=['components-recorded'],
+         bounds={'values': 'radiance, beam energy / temperature, B vector, observation direction, n_e, T_e and the four ratio functions symbolic; beam along +z'},
+         stubs=['add_gaussian_line: recording stub', 'ratio functions: positive uninterpreted'], outside=['the Stark splitting coefficient value'])
+def mse_multiplet(ex, uni):
+    mod = uni.load(LS + 'beam.mse')
+    rec = []
+    mod.add_gaussian_line = lambda rad, wl, sig, spec: (rec.append((rad, wl, sig)), spec)[1]
+    bvec = rs_model.Vector3D(ex.real('Bx'), ex.real('By'), ex.real('Bz'))
+    plasma = W.PlasmaStub(ex, [], b_field=type('B', (), {'evaluate': lambda s, x, y, z: bvec})())
+    en, tb = ex.real('beam_energy', pos=True), ex.real('beam_temperature', pos=True)
+    beam = type('Beam', (), {'get_plasma': lambda s: plasma, 'get_energy': lambda s: en, 'get_element': lambda s: EL, 'get_temperature': lambda s: tb})()
+    F2 = lambda name: rs_model.PythonFunction2D(lambda a, b: ex.uf(name, a, b, pos=True))
+    F1 = lambda name: rs_model.PythonFunction1D(lambda a: ex.uf(name, a, pos=True))
+    wl = ex.real('rest_wavelength', pos=True)
+    m = mod.BeamEmissionMultiplet(W.Line(EL, 0, (3, 2)), wl, beam, None, F2('sigma_to_pi'), F1('sigma1_to_sigma0'), F1('pi2_to_pi3'), F1('pi4_to_pi3'))
+    rad = ex.real('radiance', nonneg=True)
+    pt = rs_model.Point3D(ex.real('px'), ex.real('py'), ex.real('pz'))
+    od = rs_model.Vector3D(ex.real('ox'), ex.real('oy'), ex.real('oz'))
+    ex.assume(od.x * od.x + od.y * od.y + od.z * od.z > 0)
+    sp = uni.rs.Spectrum(400.0, 500.0, 2)
+    m.add_line(rad, pt, pt, rs_model.Vector3D(0.0, 0.0, 1.0), od, sp)
+    ne = plasma.electron_distribution.density(pt.x, pt.y, pt.z)
+    te = plasma.electron_distribution.effective_temperature(pt.x, pt.y, pt.z)
+    if not rec:
+        ex.prove(ex.any([ne <= 0, te <= 0]), 'nothing-added-only-for-non-positive-electron-density-or-temperature')
+        return
+    ex.cover('components-recorded')
+    ex.prove(len(rec) == 9, 'nine-Stark-components')
+    s2p = ex.uf('sigma_to_pi', ne, en, pos=True)
+    s10, p23, p43 = ex.uf('sigma1_to_sigma0', ne, pos=True), ex.uf('pi2_to_pi3', ne, pos=True), ex.uf('pi4_to_pi3', ne, pos=True)
+    tot = _sum([c[0] for c in rec])
+    ex.prove(ex.eq(tot, rad), 'MSE:components-sum-to-the-radiance', abstract=[s2p, s10, p23, p43])
+    sig, pi = _sum([c[0] for c in rec[:3]]), _sum([c[0] for c in rec[3:]])
+    ex.prove(ex.eq(sig * 1, s2p * pi), 'MSE:sigma-to-pi-intensity-ratio', abstract=[s2p, s10, p23, p43])
+    ex.prove(ex.all([ex.eq(rec[1][0], rec[2][0]), ex.eq(rec[3][0], rec[4][0]), ex.eq(rec[5][0], rec[6][0]), ex.eq(rec[7][0], rec[8][0])]), 'MSE:symmetric-pairs-equal')
+    ex.prove(ex.all([ex.eq(rec[1][0] * 2, s10 * rec[0][0]), ex.eq(rec[3][0], p23 * rec[5][0]), ex.eq(rec[7][0], p43 * rec[5][0])]), 'MSE:component-ratios-as-supplied',
+             abstract=[s2p, s10, p23, p43])
+    c0 = rec[0][1]
+    split = rec[1][1] - c0
+    ex.prove(ex.all([ex.eq(rec[2][1], c0 - split), ex.eq(rec[3][1], c0 + 2 * split), ex.eq(rec[4][1], c0 - 2 * split), ex.eq(rec[5][1], c0 + 3 * split),
+                     ex.eq(rec[6][1], c0 - 3 * split), ex.eq(rec[7][1], c0 + 4 * split), ex.eq(rec[8][1], c0 - 4 * split), ex.le(0, split)]),
+             'MSE:components-at-0,+-1,+-2,+-3,+-4-Stark-splittings')
+    ex.sample({'components': len(rec)})
+
+
+# ================================================================================================ Lorentzian (Stark) kernel
+class _RecIntegrator:
+    """Integrator1D stand-in: evaluate(a, b) is the uninterpreted integral INT(a, b) of whatever function it was given"""
+    def __init__(self, ex):
+        self.ex = ex
+        self.function = None
+        self.calls = []
+
+    def evaluate(self, a, b):
+        self.calls.append((a, b))
+        return self.ex.uf('INT', a, b)
+
+
+@harness('C02', name='lorentz_kernel', universe=_ls_universe, tiers={'quick': [{'bins': b} for b in (1, 2, 3)], 'thorough': [{'bins': b} for b in (1, 2, 3, 4, 5, 6)]},
+         functions=[LS + 'stark.add_lorentzian_line', LS + 'stark.StarkFunction'], cover=['line-overlaps-window', 'line-outside-window', 'no-width'],
+         bounds={'bins': 'concrete per job', 'values': 'radiance, wavelength, FWHM, window (min, delta), previous samples symbolic'},
+         stubs=['Integrator1D.evaluate(a, b): uninterpreted INT(a, b) of the StarkFunction it was handed (quadrature error is outside the claim)',
+                'floor/ceil: integer with the defining inequalities', 'x**2.5, x**1.5: x*x*sqrt(x), x*sqrt(x) with sqrt a root variable'],
+         outside=['quadrature accuracy of the integrator', 'the value of hyp2f1 behind STARK_NORM_COEFFICIENT is compared concretely (quadrature of the unit profile), not symbolically'])
+def lorentz_kernel(ex, uni, bins):
+    mod = uni.load(LS + 'stark')
+    sp, pre = _sym_spectrum(ex, uni, bins)
+    rad, wl, w = ex.real('rad', nonneg=True), ex.real('wl', pos=True), ex.real('fwhm')
+    integ = _RecIntegrator(ex)
+    mod.add_lorentzian_line(rad, wl, w, sp, integ)
+    mn, dl = sp.min_wavelength, sp.delta_wavelength
+    added = [sp.samples[i] - pre[i] for i in range(bins)]
+    if not integ.calls:
+        if integ.function is None:
+            ex.cover('no-width')
+            ex.prove(w <= 0, 'nothing-integrated-only-for-non-positive-width')
+        else:
+            ex.cover('line-outside-window')
+            ex.prove(ex.any([mn + bins * dl <= wl - 50.0 * w, mn >= wl + 50.0 * w, w <= 0]), 'skipped-only-when-the-truncated-profile-misses-the-window')
+        ex.prove(ex.all([ex.eq(a, 0) for a in added]), 'untouched-spectrum-when-nothing-integrated')
+        return
+    ex.cover('line-overlaps-window')
+    ex.prove(w > 0, 'integrated-only-for-positive-width')
+    f = integ.function
+    ex.prove(isinstance(f, mod.StarkFunction), 'integrand-is-the-Stark-profile')
+    ex.prove(ex.all([ex.eq(f._x0, wl), ex.eq(f._a, sym_half_pow(0.5 * w)), ex.eq(f._norm * float(mod.StarkFunction.STARK_NORM_COEFFICIENT), (0.5 * w) * MATH.sqrt(0.5 * w))]),
+             'profile-centred-on-the-line-with-the-documented-half-width-and-norm')
+    touched = {}
+    for (a, b) in integ.calls:
+        hit = None
+        for i in range(bins):
+            if ex.all([ex.eq(a, mn + i * dl), ex.eq(b, mn + dl * (i + 1))]):
+                hit = i
+                break
+        ex.prove(hit is not None, 'every-integration-interval-is-one-spectral-bin')
+        if hit is None:
+            return
+        ex.prove(hit not in touched, 'each-bin-integrated-once')
+        touched[hit] = (a, b)
+    for i in range(bins):
+        lo, hi = mn + i * dl, mn + dl * (i + 1)
+        if i in touched:
+            ex.prove(ex.eq(added[i] * dl, rad * ex.uf('INT', touched[i][0], touched[i][1])), 'bin-gets-radiance*integral/bin-width')
+        else:
+            ex.prove(ex.eq(added[i], 0), 'unvisited-bin-untouched')
+            ex.prove(ex.any([hi <= wl - 50.0 * w, lo >= wl + 50.0 * w]), 'unvisited-bin-lies-outside-the-truncated-profile')
+    ex.sample({'bins': bins, 'bins_integrated': len(touched)})
+
+
+def sym_half_pow(h):
+    return h * h * MATH.sqrt(h)
+
+
+@harness('C02', name='stark_function', universe=_ls_universe, tiers={'quick': [{}], 'thorough': [{}]},
+         functions=[LS + 'stark.StarkFunction.evaluate', LS + 'stark.StarkFunction.__init__'], cover=['evaluated'],
+         bounds={'values': 'centre, FWHM > 0, offset t symbolic'}, stubs=['sqrt: root variable'],
+         outside=['integral calculus: the solver shows the profile of FWHM w is the unit profile rescaled (f_w(x0 + (w/2) t) * (w/2) == f_2(t)); that the unit profile integrates '
+                  'to 1 over +-100 half-widths is a statement about one constant and is compared concretely by quadrature'])
+def stark_function(ex, uni):
+    mod = uni.load(LS + 'stark')
+    x0, w, t = ex.real('x0', pos=True), ex.real('fwhm', pos=True), ex.real('t', nonneg=True)
+    f = mod.StarkFunction(x0, w)
+    ex.cover('evaluated')
+    h = 0.5 * w
+    peak = f.evaluate(x0)
+    ex.prove(ex.all([ex.eq(f.evaluate(x0 + h), 0.5 * peak), ex.eq(f.evaluate(x0 - h), 0.5 * peak)]), 'half-maximum-at+-FWHM/2')
+    u = ex.real('u', nonneg=True)
+    ex.prove(ex.eq(f.evaluate(x0 + u), f.evaluate(x0 - u)), 'symmetric-about-the-centre')
+    ex.prove(ex.all([f.evaluate(x0 + u) > 0, ex.le(f.evaluate(x0 + u), peak)]), 'positive-and-peaked-at-the-centre')
+    # scaling: with the unit profile g(t) = 1 / (C (t^2.5 + 1)),  f_w(x0 + h t) * h == g(t)   [=> the integral over +-50 w is that of g over +-100]
+    C = float(mod.StarkFunction.STARK_NORM_COEFFICIENT)
+    st, sh = MATH.sqrt(t), MATH.sqrt(h)
+    ex.lemma(ex.eq(MATH.sqrt(h * t), sh * st), 'sqrt(h t)==sqrt(h) sqrt(t)')
+    g = 1.0 / (C * (t * t * st + 1.0))
+    ex.prove(ex.eq(f.evaluate(x0 + h * t) * h, g), 'profile-of-any-width-is-the-unit-profile-rescaled')
+    # the one constant: unit profile integrates to 1 over [-100, 100]  (concrete, scipy quadrature of the real compiled StarkFunction)
+    from scipy.integrate import quad
+    from cherab.core.model.lineshape.stark import StarkFunction as RealSF
+    rf = RealSF(10.0, 2.0)
+    val = 2 * (quad(rf, 10.0, 11.0, epsabs=1e-13, epsrel=1e-13)[0] + quad(rf, 11.0, 110.0, epsabs=1e-13, epsrel=1e-13)[0])
+    ex.prove(abs(val - 1.0) < 1e-9, 'unit-profile-integrates-to-1-over-the-truncation-range(concrete)', info={'integral': val})
+    ex.sample({'unit_integral': val})
